@@ -234,14 +234,18 @@ func (e *Exec) querySweep(r *Replica, m *Model, height int64, full bool, atH int
 				return
 			}
 		}
-		got, total, bad, pages := pageAll(st, func(pr *query.PageRequest) ([]string, *query.PageResponse, *QRes) {
+		fetchTopics := func(pr *query.PageRequest) ([]string, *query.PageResponse, *QRes) {
 			q := n.Query(qTopics, &aoltypes.QueryTopicsRequest{OwnerAddress: oa, Pagination: pr}, height)
 			var resp aoltypes.QueryTopicsResponse
 			if !q.OK() || resp.Unmarshal(q.Value) != nil {
 				return nil, nil, &q
 			}
 			return resp.TopicNames, resp.Pagination, nil
-		})
+		}
+		got, total, bad, pages := pageAll(st, fetchTopics)
+		if bad == nil && rng.Chance(0.3) && !e.keyProbe(fetchTopics, rng, "C13", "Topics", fmt.Sprintf("replica %d height %d: Topics(%s)", r.ID, atH, oa)) {
+			return
+		}
 		if bad != nil {
 			if e.qpanic(*bad, "Topics") {
 				return
@@ -288,14 +292,18 @@ func (e *Exec) querySweep(r *Replica, m *Model, height int64, full bool, atH int
 			if rng.Chance(0.2) && len(wantW) > 0 {
 				st2.Limit = uint64(len(wantW))
 			}
-			gotW, totalW, bad, pages := pageAll(st2, func(pr *query.PageRequest) ([]string, *query.PageResponse, *QRes) {
+			fetchWriters := func(pr *query.PageRequest) ([]string, *query.PageResponse, *QRes) {
 				q := n.Query(qWriters, &aoltypes.QueryWritersRequest{OwnerAddress: oa, TopicName: name, Pagination: pr}, height)
 				var resp aoltypes.QueryWritersResponse
 				if !q.OK() || resp.Unmarshal(q.Value) != nil {
 					return nil, nil, &q
 				}
 				return resp.WriterAddresses, resp.Pagination, nil
-			})
+			}
+			gotW, totalW, bad, pages := pageAll(st2, fetchWriters)
+			if bad == nil && rng.Chance(0.2) && !e.keyProbe(fetchWriters, rng, "C13", "Writers", fmt.Sprintf("replica %d height %d: Writers(%s,%s)", r.ID, atH, oa, name)) {
+				return
+			}
 			if bad != nil {
 				if e.qpanic(*bad, "Writers") {
 					return
@@ -453,7 +461,7 @@ func (e *Exec) pnftSweep(r *Replica, m *Model, height int64, full bool, atH int6
 		wantD = append(wantD, denomKeyM(m.Denoms[d]))
 	}
 	st := RandomPageStyle(rng)
-	gotD, _, bad, _ := pageAll(st, func(pr *query.PageRequest) ([]string, *query.PageResponse, *QRes) {
+	fetchDenoms := func(pr *query.PageRequest) ([]string, *query.PageResponse, *QRes) {
 		q := n.Query(qDenoms, &pnfttypes.QueryDenomsRequest{Pagination: pr}, height)
 		var resp pnfttypes.QueryDenomsResponse
 		if !q.OK() || resp.Unmarshal(q.Value) != nil {
@@ -464,7 +472,11 @@ func (e *Exec) pnftSweep(r *Replica, m *Model, height int64, full bool, atH int6
 			out = append(out, denomKey(d))
 		}
 		return out, resp.Pagination, nil
-	})
+	}
+	gotD, _, bad, _ := pageAll(st, fetchDenoms)
+	if bad == nil && rng.Chance(0.4) && !e.keyProbe(fetchDenoms, rng, "C12", "Denoms", fmt.Sprintf("replica %d height %d: Denoms", r.ID, atH)) {
+		return
+	}
 	if bad != nil {
 		if e.qpanic(*bad, "Denoms") {
 			return
@@ -1352,6 +1364,69 @@ func (e *Exec) zeroHeightExport(r0 *Replica, secs map[string]string, vals []abci
 
 // importProp attributes an export/import difference: to C08 in general, and to the property that names
 // export/import for that kind of entity (records: C01, DID tombstones: C05) when that property is being checked.
+// keyProbe: every item of a listing as the starting key of a page, in both directions. The keys are taken from the
+// listing itself (next_key of single-item pages); a page that starts at the key of item j must return item j and what
+// follows it (forward) or item j and what precedes it (reverse), and must never panic - whichever item it is (the
+// first, the last, the only one).
+func (e *Exec) keyProbe(fetch func(*query.PageRequest) ([]string, *query.PageResponse, *QRes), rng *PRNG, prop, what, where string) bool {
+	var seq []string
+	var keys [][]byte // keys[j] = key of item j (unknown for j = 0)
+	var key []byte
+	keys = append(keys, nil)
+	for len(seq) < 400 {
+		got, pr, bad := fetch(&query.PageRequest{Key: key, Limit: 1})
+		if bad != nil || len(got) != 1 {
+			break
+		}
+		seq = append(seq, got[0])
+		if pr == nil || len(pr.NextKey) == 0 {
+			break
+		}
+		key = pr.NextKey
+		keys = append(keys, key)
+	}
+	if len(seq) < 2 {
+		return true
+	}
+	e.Stats.Inc("probe.paging.key_probe")
+	js := []int{1, len(seq) - 1, 1 + rng.Intn(len(seq)-1)}
+	for _, j := range js {
+		if j >= len(keys) {
+			continue
+		}
+		for _, rev := range []bool{true, false} {
+			got, _, bad := fetch(&query.PageRequest{Key: keys[j], Limit: 1000, Reverse: rev})
+			if bad != nil {
+				if bad.IsPanic() {
+					e.viol("C17", "panic.query", what, "%s with key = the key of item %d of %d, reverse=%v panicked: %s", where, j, len(seq), rev, bad.Brief())
+				} else if rev && j == len(seq)-1 {
+					// cosmos-sdk v0.47.12's paginator cannot start a reverse page at the greatest key (its getIterator steps past
+					// the end and panics); the application turns that into an error (fix 83c279a6). An error is accepted here,
+					// a panic is not.
+					e.Stats.Inc("probe.paging.reverse_from_greatest_key_refused")
+					continue
+				} else {
+					e.viol(prop, "listing.key_start.error", what, "%s with key = the key of item %d of %d, reverse=%v failed: %s", where, j, len(seq), rev, bad.Brief())
+				}
+				return false
+			}
+			var want []string
+			if rev {
+				for i := j; i >= 0; i-- {
+					want = append(want, seq[i])
+				}
+			} else {
+				want = append(want, seq[j:]...)
+			}
+			if strings.Join(got, "\x1f") != strings.Join(want, "\x1f") {
+				e.viol(prop, "listing.key_start.mismatch", what, "%s with key = the key of item %d of %d, reverse=%v returned %d items %v; single-item forward paging gives %v", where, j, len(seq), rev, len(got), trunc(fmt.Sprint(got), 300), trunc(fmt.Sprint(want), 300))
+				return false
+			}
+		}
+	}
+	return true
+}
+
 // importPropAll: the difference is attributed by its first few lines; when those do not name the property being decided,
 // every differing entry is looked at (a dropped tombstone may come after a hundred dropped documents).
 func (e *Exec) importPropAll(want, got map[string]string, shown []string) string {
@@ -1374,6 +1449,8 @@ func (e *Exec) importProp(diffLine string) string {
 		return "C01"
 	case strings.Contains(diffLine, " did/") && strings.Contains(diffLine, "tomb") && e.Prop == "C05":
 		return "C05"
+	case (strings.Contains(diffLine, "aol/topic/") || strings.Contains(diffLine, "aol/owner/")) && e.Prop == "C13":
+		return "C13" // the counters no longer equal the real contents
 	case strings.Contains(diffLine, "aol/writer/") && e.Prop == "C02":
 		return "C02" // the writer list changed without any transaction of the owner
 	case strings.Contains(diffLine, "pnft/token/") && strings.Contains(diffLine, "differs") && e.Prop == "C06":
@@ -1505,18 +1582,43 @@ func (e *Exec) finalChecks() {
 	e.crashEnumeration()
 }
 
+func (e *Exec) skipsUpgradeAt(h int64) bool {
+	for _, s := range e.S.Config.SkipUpgradeHeights {
+		if s == h {
+			return true
+		}
+	}
+	return false
+}
+
 func (e *Exec) upgradeChecks() {
 	for _, b := range e.Blocks {
 		if b.Plan == nil || b.Plan.Height > e.head() {
 			continue
 		}
-		e.Stats.Inc("probe.upgrade.executed")
+		if e.skipsUpgradeAt(b.Plan.Height) {
+			e.Stats.Inc("probe.upgrade.skipped")
+		} else {
+			e.Stats.Inc("probe.upgrade.executed")
+		}
 		for _, r := range e.R {
 			if r.Dead || !r.Up || (r.Boot && (r.FirstHeight >= b.Plan.Height || b.PlanViaGov)) {
 				// a chain started from an export does not inherit a plan that governance had already put in place
 				continue // a chain bootstrapped from a later export does not carry the upgrade bookkeeping
 			}
 			ctx := r.App.NewContext(true, e.Env.Header(e.at(e.head()).B))
+			if e.skipsUpgradeAt(b.Plan.Height) {
+				// the operators agreed to skip this plan: nothing is executed, the plan is gone, the chain goes on
+				if dh := r.App.UpgradeKeeper.GetDoneHeight(ctx, b.Plan.Name); dh != 0 {
+					e.viol("C19", "upgrade.skipped_but_done", "", "replica %d: upgrade %s at height %d was to be skipped (--unsafe-skip-upgrades) but is recorded as done at height %d", r.ID, b.Plan.Name, b.Plan.Height, dh)
+					return
+				}
+				if p, has := r.App.UpgradeKeeper.GetUpgradePlan(ctx); has && p.Height == b.Plan.Height {
+					e.viol("C19", "upgrade.skipped_plan_left", "", "replica %d: the skipped plan %s for height %d is still scheduled", r.ID, b.Plan.Name, b.Plan.Height)
+					return
+				}
+				continue
+			}
 			if dh := r.App.UpgradeKeeper.GetDoneHeight(ctx, b.Plan.Name); dh != b.Plan.Height {
 				e.viol("C19", "upgrade.not_recorded", "", "replica %d: upgrade %s is recorded as done at height %d, the plan height is %d", r.ID, b.Plan.Name, dh, b.Plan.Height)
 				return
